@@ -7,6 +7,10 @@ let cv p a b n = c02_curve (arg_z p) (arg_z a) (arg_z b) (arg_z n)
 let gn p a b n g bits blind = c02_gen (cv p a b n) (arg_pt g) (arg_nat bits) (arg_z blind)
 let show_gen g = let ((((((p, a), b), n), gp), bits), blind) = c02_gen_fields g in
   "(" ^ show_pt gp ^ " " ^ show_nat bits ^ " " ^ show_z blind ^ ")"
+let po p a b n k xy =
+  let k = arg_int k in
+  c02_pobj (cv p a b n) (nat_of_int (if k >= 3 then 1 else 0)) (arg_pt xy)
+    (nat_of_int (if k = 0 && arg_pt xy = None then 0 else k + 1))
 let dispatch f args = match f, args with
   | "inverse_mod", [a; m] -> show_outcome show_z (c02_inverse_mod (arg_z a) (arg_z m))
   | "leftmost_bit", [x] -> show_outcome show_z (c02_leftmost_bit (arg_z x))
@@ -26,6 +30,18 @@ let dispatch f args = match f, args with
     show_outcome show_pt2 (c02_points_for_x (gn p a b n g bits blind) (arg_z x))
   | "shared", [p; a; b; n; g; bits; blind; k; x; y] ->
     show_outcome show_pt (c02_shared (gn p a b n g bits blind) (arg_z k) (arg_z x) (arg_z y))
+  (* object level: <pres> = "i<k>", k = presentation index of the Python object (harness/c02_ops.PRESENTATIONS);
+     k >= 3 lives on a twin curve object (owner id 1); identity k + 1 (0 is the singleton infinity) *)
+  | "oadd", [p; a; b; n; k0; p0; k1; p1] -> show_outcome show_pt (c02_oadd (po p a b n k0 p0) (po p a b n k1 p1))
+  | "osub", [p; a; b; n; k0; p0; k1; p1] -> show_outcome show_pt (c02_osub (po p a b n k0 p0) (po p a b n k1 p1))
+  | "ocadd", [p; a; b; n; k0; p0; k1; p1] -> show_outcome show_pt (c02_ocadd (cv p a b n) (po p a b n k0 p0) (po p a b n k1 p1))
+  | "oneg", [p; a; b; n; k0; p0] -> show_outcome show_pt (c02_oneg (po p a b n k0 p0))
+  | "omul", [p; a; b; n; k0; p0; e] -> show_outcome show_pt (c02_omul (po p a b n k0 p0) (arg_z e))
+  | "ocmul", [p; a; b; n; k0; p0; e] -> show_outcome show_pt (c02_ocmul (cv p a b n) (po p a b n k0 p0) (arg_z e))
+  (* operands from two curve objects with DIFFERENT parameters: the left operand's curve does the arithmetic *)
+  | "xadd", [p; a; b; n; p0; p'; a'; b'; n'; p1] ->
+    show_outcome show_pt (c02_oadd (c02_pobj (cv p a b n) (nat_of_int 0) (arg_pt p0) (nat_of_int 1))
+                                   (c02_pobj (cv p' a' b' n') (nat_of_int 1) (arg_pt p1) (nat_of_int 2)))
   | _ -> failwith ("unknown function " ^ f)
 
 (* Batch main loop (no oracles in this driver): read every line, evaluate them in C02_JOBS forked workers
